@@ -60,6 +60,13 @@ type Table struct {
 	Indexes      []Index  `json:",omitempty"`
 }
 
+// MasterRow replaces a row of sqlite_master (hostile schema generation). If
+// RootOf names a built object, field 3 is replaced by that object's root page.
+type MasterRow struct {
+	Fields []val.V
+	RootOf string `json:",omitempty"`
+}
+
 // Image is a whole database.
 type Image struct {
 	PageSize int
@@ -67,6 +74,8 @@ type Image struct {
 	Header   fmtb.Header
 	Master   fmtb.TreeOpts
 	Tables   []Table
+	// MasterRows, when set, replaces the generated sqlite_master content.
+	MasterRows []MasterRow `json:",omitempty"`
 }
 
 func colName(i int) string { return fmt.Sprintf("c%d", i) }
@@ -135,6 +144,8 @@ type Built struct {
 	Img    []byte
 	Tables map[string]*BuiltTable
 	Pages  int
+	Refs   []fmtb.Ref
+	Roots  map[string]int
 }
 
 type BuiltTable struct {
@@ -252,7 +263,24 @@ func Build(spec *Image) (res *Built, err error) {
 		}
 		out.Tables[t.Name] = bt
 	}
-	out.Img = b.Finish(objs, spec.Header, spec.Master)
+	out.Roots = map[string]int{}
+	for _, o := range objs {
+		out.Roots[o.Name] = o.Root
+	}
+	if spec.MasterRows != nil {
+		var raw [][]fmtb.Field
+		for _, mr := range spec.MasterRows {
+			fs := fmtb.Values(mr.Fields...)
+			if root, ok := out.Roots[mr.RootOf]; ok && len(fs) > 3 {
+				fs[3] = fmtb.F(val.Int(int64(root)))
+			}
+			raw = append(raw, fs)
+		}
+		out.Img = b.FinishRaw(raw, spec.Header, spec.Master)
+	} else {
+		out.Img = b.Finish(objs, spec.Header, spec.Master)
+	}
+	out.Refs = b.Refs
 	out.Pages = len(out.Img) / spec.PageSize
 	return out, nil
 }
